@@ -12,6 +12,7 @@ RULE = ("the sixteen documented identities (CE=NLL.log_softmax, BCEwL=BCE.sigmoi
         "independent leaves; values compared with a forward-error bound, gradients to 1e-9 relative (1e-6 where a guard constant sits on one "
         "side). distinct key = (identity, arguments); non-trivial = result has > 1 element")
 RULE += (' Added after the seeded rounds: both sides differentiated twice; zero biases; batched addmm; int / tuple kernel forms; Fortran-ordered operands for flatten; entries of a Sequential replaced after construction; slices of log-softmax / cross-entropy at levels 0, +-50, +-300, +-900; the mean identity on integer / bool tensors.')
+RULE += (" Round 6 / reach monitor: proper subsets of operands requiring grad on both sides; pooling layers with the stride left at its default under dilation; Sequential in eval mode (still differentiable).")
 ASSUMPTIONS = ["sigmoid/BCE pair and log(softmax) pair on moderate logits (|x|<=4) with tolerance 1e-6: one side contains the 1e-12 guard constants",
                "pooling identities use tie-free inputs so that both sides pick the same arg-max"]
 SHARD_TIMEOUT = {"quick": 900, "thorough": 3600}
